@@ -2,6 +2,7 @@
 package main
 
 import (
+	"fmt"
 	"go/token"
 	"go/types"
 	"strconv"
@@ -1535,4 +1536,275 @@ func ruleQueryIntactFor(c *Ctx, rule string, root *ssa.Function) {
 	if n == 0 {
 		c.und(rule, funcName(root)+"/RevComp-on-a-copy", root.Pos(), "Align reverse-complements nothing")
 	}
+}
+
+// ---- validateupfront (C09): the global and fitted aligners reject illegal letters whatever the other sequence is ----
+
+// ruleValidateUpFront: NW, NWAffine, Fitted and FittedAffine check every
+// letter of each sequence in a loop of its own before the table is filled (the
+// border initialisation subscripts the matrix with letter indices, and an empty
+// other sequence leaves the fill loop without a single round). For each of the
+// two sequences there must be a test `index[seq[i]] < 0` leading to an error
+// return that sits in exactly one loop — not inside the nested fill, whose
+// inner loop does not run when the other sequence is empty. The local aligners
+// validate in the fill only (an illegal letter opposite an empty sequence is
+// not reported there, on the pinned tree as well); they are not instances.
+func ruleValidateUpFront(c *Ctx, rule string, fns []*ssa.Function) {
+	alphaPath := modPath + "/alphabet"
+	for _, fn := range fns {
+		if len(fn.Params) < 3 {
+			continue
+		}
+		c.Funcs[funcName(fn)] = true
+		loops := naturalLoops(fn)
+		depth := func(b *ssa.BasicBlock) int {
+			n := 0
+			for _, l := range loops {
+				if l.body[b] {
+					n++
+				}
+			}
+			return n
+		}
+		for pi, name := range map[int]string{1: "reference", 2: "query"} {
+			prm := fn.Params[pi]
+			key := funcName(fn) + "/" + name + "-letters-checked-in-a-loop-of-their-own"
+			best := -1
+			for _, b := range fn.Blocks {
+				ifi, ok := b.Instrs[len(b.Instrs)-1].(*ssa.If)
+				if !ok {
+					continue
+				}
+				bo, ok := ifi.Cond.(*ssa.BinOp)
+				if !ok {
+					continue
+				}
+				isLIV := func(v ssa.Value) bool {
+					u, ok := v.(*ssa.UnOp)
+					if !ok || u.Op != token.MUL {
+						return false
+					}
+					ia, ok := u.X.(*ssa.IndexAddr)
+					return ok && isNamed(ia.X.Type(), alphaPath, "Index") && seqBase(ia.Index) == ssa.Value(prm)
+				}
+				var rejEdge int
+				switch {
+				case isLIV(bo.X) && bo.Op == token.LSS:
+					if k, ok := constIntVal(bo.Y); !ok || k != 0 {
+						continue
+					}
+					rejEdge = 0
+				case isLIV(bo.X) && bo.Op == token.GEQ:
+					if k, ok := constIntVal(bo.Y); !ok || k != 0 {
+						continue
+					}
+					rejEdge = 1
+				default:
+					continue
+				}
+				if !rejectsFrom(b, b.Succs[rejEdge]) {
+					continue
+				}
+				if d := depth(b); best < 0 || d < best {
+					best = d
+				}
+			}
+			switch {
+			case best < 0:
+				c.bad(rule, key, fn.Pos(), "no test of the "+name+"'s letter indices leads to an error: an illegal letter is used as a subscript of the matrix")
+			case best > 1:
+				c.bad(rule, key, fn.Pos(), "the "+name+"'s letters are checked only inside the nested fill loop: when the other sequence is empty the inner loop does not run, so an illegal letter is accepted and an alignment returned without an error (the sibling aligners, and this one on the reference tree, check each sequence in a loop of its own first)")
+			default:
+				c.ok(rule, key, fn.Pos(), "checked in a loop of its own")
+			}
+		}
+	}
+}
+
+// ---- trimcoords (C06): Trim's results and probes are positions, not subscripts ----
+
+// ruleTrimCoords: Trim returns positions of the quality feature — values on
+// the scale of q.Start() and q.End() — and probes q.EAt with positions. Every
+// integer expression of Trim gets an origin degree: 1 for q.Start()/q.End(),
+// 0 for constants, q.Len() and lengths; sums and differences add. A value
+// that merges a position with a subscript (a phi with edges of different
+// degree) describes nothing for a feature that does not start at 0; each
+// result and each argument of EAt has degree 1.
+func ruleTrimCoords(c *Ctx, rule string) {
+	fn := c.fn("seq/sequtils", "Trim")
+	c.Funcs[funcName(fn)] = true
+	type deg struct {
+		known bool
+		d     int
+	}
+	mixed := map[*ssa.Phi][2]int{}
+	busy := map[ssa.Value]bool{}
+	var degree func(v ssa.Value, depth int) deg
+	degree = func(v ssa.Value, depth int) deg {
+		if depth > 14 || busy[v] {
+			return deg{}
+		}
+		busy[v] = true
+		defer delete(busy, v)
+		switch x := v.(type) {
+		case *ssa.Const:
+			return deg{true, 0}
+		case *ssa.Convert:
+			return degree(x.X, depth+1)
+		case *ssa.ChangeType:
+			return degree(x.X, depth+1)
+		case *ssa.BinOp:
+			if x.Op == token.ADD || x.Op == token.SUB {
+				a, b := degree(x.X, depth+1), degree(x.Y, depth+1)
+				if a.known && b.known {
+					if x.Op == token.SUB {
+						return deg{true, a.d - b.d}
+					}
+					return deg{true, a.d + b.d}
+				}
+			}
+		case *ssa.Phi:
+			var out deg
+			unknown := false
+			for _, e := range x.Edges {
+				if busy[e] {
+					continue // loop-carried: judged by the other edges
+				}
+				de := degree(e, depth+1)
+				if !de.known {
+					// an edge that only leads back to this phi says nothing
+					if valueDependsOnOnly(e, x) {
+						continue
+					}
+					unknown = true
+					continue
+				}
+				if !out.known {
+					out = de
+				} else if out.d != de.d {
+					mixed[x] = [2]int{out.d, de.d}
+				}
+			}
+			if unknown {
+				return deg{}
+			}
+			return out
+		case *ssa.Call:
+			nm := ""
+			if x.Call.IsInvoke() {
+				nm = x.Call.Method.Name()
+			} else if b, ok := x.Call.Value.(*ssa.Builtin); ok {
+				nm = b.Name()
+			} else if g := x.Call.StaticCallee(); g != nil {
+				nm = g.Name()
+			}
+			switch nm {
+			case "Start", "End":
+				if len(x.Call.Args) == 0 || !x.Call.IsInvoke() {
+					return deg{true, 1}
+				}
+			case "Len", "len", "cap":
+				return deg{true, 0}
+			case "min", "max", "Min", "Max":
+				var out deg
+				for _, a := range x.Call.Args {
+					da := degree(a, depth+1)
+					if !da.known {
+						return deg{}
+					}
+					if !out.known {
+						out = da
+					} else if out.d != da.d {
+						return deg{}
+					}
+				}
+				return out
+			}
+		}
+		return deg{}
+	}
+	judge := func(key string, v ssa.Value, pos token.Pos, what string) {
+		for k := range mixed {
+			delete(mixed, k)
+		}
+		d := degree(v, 0)
+		if len(mixed) > 0 {
+			var first *ssa.Phi
+			for p := range mixed {
+				if first == nil || p.Pos() < first.Pos() {
+					first = p
+				}
+			}
+			m := mixed[first]
+			c.bad(rule, key, pos, fmt.Sprintf("%s merges a %s with a %s (variable %s): for a feature that does not start at position 0 the two scales differ by q.Start(), so the window reported is not the window found", what, degName(m[0]), degName(m[1]), first.Comment))
+			return
+		}
+		switch {
+		case !d.known:
+			c.ok(rule, key, pos, what+" is built from values this rule does not classify; no position is merged with a subscript on the way")
+		case d.d == 1:
+			c.ok(rule, key, pos, what+" is a position: on the scale of q.Start() and q.End()")
+		default:
+			c.bad(rule, key, pos, fmt.Sprintf("%s is a %s, not a position: the feature's start has not been added (or was added twice), so for a feature that does not start at position 0 the result lies outside the window found", what, degName(d.d)))
+		}
+	}
+	rets := returnsOf(fn)
+	n := 0
+	for ri, r := range rets {
+		res := effectiveResults(r)
+		if len(res) != 2 {
+			continue
+		}
+		for i, nm := range []string{"start", "end"} {
+			key := fmt.Sprintf("sequtils.Trim/return#%d/%s-is-a-position", ri+1, nm)
+			judge(key, res[i], r.Pos(), "the returned "+nm)
+			n++
+		}
+	}
+	k := 0
+	for _, b := range fn.Blocks {
+		for _, ins := range b.Instrs {
+			call, ok := ins.(*ssa.Call)
+			if !ok || !call.Call.IsInvoke() || call.Call.Method.Name() != "EAt" || len(call.Call.Args) != 1 {
+				continue
+			}
+			k++
+			judge(fmt.Sprintf("sequtils.Trim/EAt#%d/probe-is-a-position", k), call.Call.Args[0], call.Pos(), "the column handed to EAt")
+			n++
+		}
+	}
+	if n == 0 {
+		c.und(rule, "sequtils.Trim/coordinates", fn.Pos(), "no return of two results and no EAt probe found in Trim")
+	}
+}
+
+// valueDependsOnOnly: every leaf of v (through sums, differences and phis) is
+// a constant or the phi p itself: v says nothing about p's scale beyond p.
+func valueDependsOnOnly(v ssa.Value, p *ssa.Phi) bool {
+	seen := map[ssa.Value]bool{}
+	var walk func(v ssa.Value, d int) bool
+	walk = func(v ssa.Value, d int) bool {
+		if d > 10 {
+			return false
+		}
+		if v == ssa.Value(p) || seen[v] {
+			return true
+		}
+		seen[v] = true
+		switch x := v.(type) {
+		case *ssa.Const:
+			return true
+		case *ssa.BinOp:
+			return (x.Op == token.ADD || x.Op == token.SUB) && walk(x.X, d+1) && walk(x.Y, d+1)
+		case *ssa.Phi:
+			for _, e := range x.Edges {
+				if !walk(e, d+1) {
+					return false
+				}
+			}
+			return true
+		}
+		return false
+	}
+	return walk(v, 0)
 }
